@@ -1,4 +1,4 @@
-"""C04: record the measured verdict ratio (tight / non-tight, private recursion yes / no) of the
+"""C04base: record the measured verdict ratio (tight / non-tight, private recursion yes / no) of the
 generated programs in the evidence, so that a generator that only produces one verdict is visible."""
 
 
